@@ -230,12 +230,30 @@ func (d docGen) doc(trap bool) interface{} {
 func (d docGen) variant(v interface{}) interface{} {
 	switch t := v.(type) {
 	case []interface{}:
+		if t == nil {
+			return t
+		}
 		out := make([]interface{}, len(t))
 		for i, e := range t {
 			out[i] = d.variant(e)
 		}
+		// documents of one family may differ in the LENGTH of their arrays too (state kept in a
+		// parsed function that depends on an earlier array's length shows only then)
+		switch rn(6) {
+		case 4:
+			if len(out) > 1 {
+				out = out[:1+rn(len(out)-1)]
+			}
+		case 5:
+			for k := 1 + rn(4); k > 0 && len(out) > 0; k-- {
+				out = append(out, d.variant(out[rn(len(out))]))
+			}
+		}
 		return out
 	case map[string]interface{}:
+		if t == nil {
+			return t
+		}
 		out := make(map[string]interface{}, len(t))
 		keys := sortedKeys(t)
 		for _, k := range keys {
@@ -281,6 +299,7 @@ type MStep struct {
 	Kind  int
 	Names []string // mName (1), mMulti (n; "*" = wildcard entry)
 	Idx   []int    // mIndexUnion
+	Wild  []bool   // mIndexUnion: entry i is a wildcard (Idx[i] ignored)
 }
 
 // PathSpec is a generated path with what the generator knows about it.
@@ -505,6 +524,9 @@ func (g *pathGen) awareStep() (text string, single bool, ok bool) {
 		case 4:
 			i, j := rn(n), rn(n)
 			g.cur = t[i]
+			if chance(25) {
+				return longUnion(n), false, true
+			}
 			if chance(40) {
 				// a union holding a wildcard next to something else
 				return pick([]string{"[*," + strconv.Itoa(i) + "]", "[" + strconv.Itoa(i) + ",*]", "[*,*]", "[*,0:1]"}), false, true
@@ -737,7 +759,33 @@ func slice() string {
 	return s
 }
 
+// longUnion renders a union of 3-7 entries (indices of both signs, now and then a slice or wildcard).
+func longUnion(n int) string {
+	m := 3 + rn(5)
+	parts := make([]string, m)
+	for i := range parts {
+		switch rn(10) {
+		case 0:
+			parts[i] = "*"
+		case 1:
+			parts[i] = slice()
+		case 2, 3, 4:
+			parts[i] = strconv.Itoa(-1 - rn(3))
+		default:
+			k := 4
+			if n > 0 {
+				k = n
+			}
+			parts[i] = strconv.Itoa(rn(k))
+		}
+	}
+	return "[" + strings.Join(parts, ","+sp()) + "]"
+}
+
 func (g *pathGen) bracketRest() (text string, single bool) {
+	if rn(10) == 9 {
+		return longUnion(0), false
+	}
 	switch rn(8) {
 	case 0:
 		return "[" + idx() + "]", true
@@ -985,13 +1033,25 @@ func genModelPath(trap bool) *PathSpec {
 			}
 		case 3:
 			m := 2 + rn(2)
+			if chance(20) {
+				m = 3 + rn(4)
+			}
 			ix := make([]int, m)
+			wild := make([]bool, m)
 			parts := make([]string, m)
 			for j := range ix {
+				if chance(15) {
+					wild[j] = true
+					parts[j] = "*"
+					continue
+				}
 				ix[j] = rn(4) - 1
+				if chance(10) {
+					ix[j] = 60 + rn(10) // wide arrays
+				}
 				parts[j] = strconv.Itoa(ix[j])
 			}
-			st = MStep{Kind: mIndexUnion, Idx: ix}
+			st = MStep{Kind: mIndexUnion, Idx: ix, Wild: wild}
 			t = "[" + strings.Join(parts, ",") + "]"
 		case 4:
 			m := 2 + rn(2)
@@ -1040,6 +1100,12 @@ func genCfg(allowAccessor bool) CfgSpec {
 	c.Funcs = uint32(rn(1 << nFuncs))
 	if chance(40) {
 		c.Funcs = 1<<nFuncs - 1
+	}
+	switch rn(8) {
+	case 6: // filter functions only
+		c.Funcs &= 1<<fID | 1<<fTag | 1<<fFF | 1<<fYF
+	case 7: // aggregate functions only
+		c.Funcs &^= 1<<fID | 1<<fTag | 1<<fFF | 1<<fYF
 	}
 	if allowAccessor && chance(30) {
 		c.Accessor = true
